@@ -1,6 +1,7 @@
 """C10 - configurations encode to bounded TLV blocks that decode to the same operations.
 
-Contracts on bec2format/bf3file.py::conf_dict_to_list, conf_dict_to_tlv (set_config's framing is C06):
+Contracts on bec2format/bf3file.py::conf_dict_to_list, conf_dict_to_tlv; set_config's framing (length byte + block ..., one
+closing 00, extra blocks unchanged, tags) is the contract proved under C06 / C11 and discharged here too (end of file):
  conf_dict_to_list(d)   = deletions (delete-key / delete-value) in sorted order, then value assignments in sorted
                           order, every dictionary entry exactly once
  conf_dict_to_tlv(d)    blocks b_0..b_m: none empty; every block <= 117 bytes whenever every single entry fits in one
@@ -426,6 +427,6 @@ def component_decodes(vc):
 
 # set_config's framing for symbolic blocks (proved once under C06 / C11) is an obligation of this property too
 from pyvc.harness import reuse as _reuse
-from contracts import C06 as _C06x, C11 as _C11x  # noqa: E402,F401  (defines the proofs reused below)
 _reuse("C06/set_config.component", "C10/set_config.blob=length-prefixed-blocks+00")
 _reuse("C11/set_config.any-number-of-components", "C10/set_config.any-number-of-components")
+_reuse("C11/_get_config_ndx", "C10/set_config.replaces-the-first-configuration-found")
